@@ -162,7 +162,13 @@ func ruleImplicitPanic(w *World, r *Run, rule string, reach map[*ssa.Function]bo
 						if c, ok := x.Y.(*ssa.Const); !ok || c.Value == nil || constant.Sign(c.Value) == 0 {
 							has = true
 							k := siteKey{funcNameOrSSA(fn), x.Pos()}
-							sites[k] = &siteRes{kind: "div", desc: "integer division by a non-constant", ok: false, why: "divisor not a non-zero constant", pos: x.Pos(), fn: funcNameOrSSA(fn)}
+							if configOnly(fn, x.Y, 0) {
+								// the divisor is state of the receiver or a package variable (a configured size): whether it is
+								// zero does not depend on anything the network sends
+								sites[k] = &siteRes{kind: "div", desc: "integer division by configuration state", ok: true, why: "divisor does not depend on input", pos: x.Pos(), fn: funcNameOrSSA(fn)}
+							} else {
+								sites[k] = &siteRes{kind: "div", desc: "integer division by a non-constant", ok: false, why: "divisor not a non-zero constant", pos: x.Pos(), fn: funcNameOrSSA(fn)}
+							}
 						}
 					}
 				}
@@ -222,6 +228,22 @@ func ruleImplicitPanic(w *World, r *Run, rule string, reach map[*ssa.Function]bo
 					}
 					if !ok && implies(facts, "<", idx, ln, true) && (implies(facts, "<", idx, zero, false) || nonNeg(idx)) {
 						ok, why = true, "dominated by facts implying 0 <= index < len"
+					}
+					// x % len(base) on unsigned operands lies in [0, len(base)) whenever it is evaluated at all
+					if !ok {
+						ix := idx
+						for ix.Kind == "conv" && len(ix.Args) == 1 {
+							ix = ix.Args[0]
+						}
+						if ix.Kind == "binop" && ix.Name == "%" && len(ix.Args) == 2 && isUnsignedTerm(ix) {
+							m := ix.Args[1]
+							for m.Kind == "conv" && len(m.Args) == 1 {
+								m = m.Args[0]
+							}
+							if m.Kind == "len" && len(m.Args) == 1 && m.Args[0] == base {
+								ok, why = true, "index is a remainder modulo the length of the indexed slice"
+							}
+						}
 					}
 					// contract: a successful note.Open / ParseCheckpoint returns a note with at least one verified signature
 					if !ok && idx.Kind == "const" && idx.Name == "0" && base.Kind == "field" && base.Name == "Sigs" && len(base.Args) == 1 && base.Args[0].Kind == "call" {
@@ -891,4 +913,45 @@ func ruleNoManualEncoding(w *World, r *Run, rule string) {
 	if bad == 0 {
 		r.Pass(rule, "outbound requests | response decoding left to net/http", "", "")
 	}
+}
+
+
+// configOnly: the SSA value is computed only from constants, fields of the method's receiver and package-level variables.
+func configOnly(fn *ssa.Function, v ssa.Value, depth int) bool {
+	if depth > 6 {
+		return false
+	}
+	switch x := v.(type) {
+	case *ssa.Const:
+		return true
+	case *ssa.Global:
+		return true
+	case *ssa.Parameter:
+		return fn.Signature.Recv() != nil && len(fn.Params) > 0 && x == fn.Params[0]
+	case *ssa.Convert:
+		return configOnly(fn, x.X, depth+1)
+	case *ssa.ChangeType:
+		return configOnly(fn, x.X, depth+1)
+	case *ssa.UnOp:
+		return configOnly(fn, x.X, depth+1)
+	case *ssa.FieldAddr:
+		return configOnly(fn, x.X, depth+1)
+	case *ssa.Field:
+		return configOnly(fn, x.X, depth+1)
+	case *ssa.BinOp:
+		return configOnly(fn, x.X, depth+1) && configOnly(fn, x.Y, depth+1)
+	case *ssa.Call:
+		if b, ok := x.Call.Value.(*ssa.Builtin); ok && (b.Name() == "len" || b.Name() == "cap") && len(x.Call.Args) == 1 {
+			return configOnly(fn, x.Call.Args[0], depth+1)
+		}
+	}
+	return false
+}
+
+func isUnsignedTerm(t *Term) bool {
+	if t == nil || t.Typ == nil {
+		return false
+	}
+	b, ok := t.Typ.Underlying().(*types.Basic)
+	return ok && b.Info()&types.IsUnsigned != 0
 }
